@@ -5,4 +5,5 @@ cd "$(dirname "$0")"
 export GOFLAGS=-mod=mod GOPROXY=off GOSUMDB=off GOTOOLCHAIN=local
 cp /repo/go.sum ./go.sum
 mkdir -p bin
-go build -tags verif -o bin/harness . 
+go build -tags verif -o bin/harness .
+if [ "$VERIF_RACE" = 1 ]; then go build -race -tags verif -o bin/harness-race . ; fi
